@@ -324,12 +324,15 @@ impl Ctx {
         let p = h.b.as_ptr() as usize;
         if let Some(a) = h.addr {
             if p != a {
-                panic!("C05: {}: handle reads at {:#x}, want the original address {:#x} (buffer base {:#x})", what, p, a, self.base);
+                panic!("C05,C07,C01: {}: handle reads at {:#x}, want the original address {:#x} (buffer base {:#x})", what, p, a, self.base);
             }
         }
         self.ghost_read(p, h.b.len());
         if &h.b[..] != &h.expect[..] {
-            panic!("C05: {}: handle reads {:02x?}, want {:02x?}", what, &h.b[..], h.expect);
+            if h.b.iter().any(|&x| x == 0xDD) {
+                panic!("C05,C02,C01: {}: handle reads {:02x?} (0xdd = freed memory), want {:02x?}", what, &h.b[..], h.expect);
+            }
+            panic!("C05,C01: {}: handle reads {:02x?}, want {:02x?}", what, &h.b[..], h.expect);
         }
     }
     fn in_buffer(&self, p: usize) -> bool {
@@ -406,7 +409,7 @@ fn run_thread(tid: usize, ops: &[TOp], mut own: Vec<Hd>, mut muts: Vec<(BytesMut
                     match r {
                         Ok(mut m) => {
                             if &m[..] != &expect[..] {
-                                panic!("C05: BytesMut from Bytes holds {:02x?}, want {:02x?}", &m[..], expect);
+                                panic!("C05,C01{}: BytesMut from Bytes holds {:02x?}, want {:02x?}", if m.iter().any(|&x| x == 0xDD) { ",C02" } else { "" }, &m[..], expect);
                             }
                             if !m.is_empty() && m.as_ptr() as usize == old_ptr && ctx.in_buffer(old_ptr) {
                                 // zero-copy: this thread now owns the storage exclusively
@@ -434,7 +437,7 @@ fn run_thread(tid: usize, ops: &[TOp], mut own: Vec<Hd>, mut muts: Vec<(BytesMut
                     let expect = h.expect;
                     let mut v: Vec<u8> = h.b.into();
                     if &v[..] != &expect[..] {
-                        panic!("C05: Vec from Bytes holds {:02x?}, want {:02x?}", &v[..], expect);
+                        panic!("C05,C01{}: Vec from Bytes holds {:02x?}, want {:02x?}", if v.iter().any(|&x| x == 0xDD) { ",C02" } else { "" }, &v[..], expect);
                     }
                     if !v.is_empty() && ctx.tracked && v.as_ptr() as usize == ctx.base {
                         take_excl(tid * 4 + 3);
@@ -450,7 +453,7 @@ fn run_thread(tid: usize, ops: &[TOp], mut own: Vec<Hd>, mut muts: Vec<(BytesMut
                 if let Some((m, expect)) = muts.last_mut() {
                     ctx.ghost_write(m.as_ptr() as usize, m.capacity());
                     if &m[..] != &expect[..] {
-                        panic!("C05: BytesMut half reads {:02x?}, want {:02x?}", &m[..], expect);
+                        panic!("C05,C01,C04: BytesMut half reads {:02x?}, want {:02x?}", &m[..], expect);
                     }
                     for x in m.iter_mut() {
                         *x = x.wrapping_add(1);
@@ -513,10 +516,10 @@ fn run_thread(tid: usize, ops: &[TOp], mut own: Vec<Hd>, mut muts: Vec<(BytesMut
                     a.unsplit(b);
                     aexp.extend_from_slice(&bexp);
                     if adjacent && a.as_ptr() as usize != ap {
-                        panic!("C05: unsplit of adjacent halves moved the bytes");
+                        panic!("C05,C07: unsplit of adjacent halves moved the bytes");
                     }
                     if &a[..] != &aexp[..] {
-                        panic!("C05: unsplit result reads {:02x?}, want {:02x?}", &a[..], aexp);
+                        panic!("C05,C01: unsplit result reads {:02x?}, want {:02x?}", &a[..], aexp);
                     }
                     muts.push((a, aexp));
                 }
@@ -659,7 +662,7 @@ fn run_program(p: &Program) {
                 ctx.use_bytes(&h, "main before into Vec");
                 let mut v: Vec<u8> = h.b.into();
                 if &v[..] != &DATA[shared_off..] {
-                    panic!("C05: main: Vec from Bytes holds {:02x?}", &v[..]);
+                    panic!("C05,C01: main: Vec from Bytes holds {:02x?}", &v[..]);
                 }
                 if ctx.tracked && v.as_ptr() as usize == ctx.base {
                     EXCL.fetch_add(1, SeqCst);
@@ -700,21 +703,21 @@ fn run_program(p: &Program) {
         panic!("{}", m);
     }
     if ghost_panic {
-        panic!("C06: the deallocation of the buffer races with an earlier use on another thread (ghost cell causality violation at the free)");
+        panic!("C06,C05: the deallocation of the buffer races with an earlier use on another thread (ghost cell causality violation at the free)");
     }
     if dfree > 0 {
-        panic!("C05: a block was freed twice ({} double frees)", dfree);
+        panic!("C05,C02,C03: a block was freed twice ({} double frees)", dfree);
     }
     if ctx.tracked {
         if frees != 1 || buf_live {
-            panic!("C05: the storage was freed {} times (still live: {}), want exactly once after the last handle", frees, buf_live);
+            panic!("C05,C03: the storage was freed {} times (still live: {}), want exactly once after the last handle", frees, buf_live);
         }
         if leaked_ctrl > 0 {
-            panic!("C05: {} control block(s) referring to the buffer leaked", leaked_ctrl);
+            panic!("C05,C03: {} control block(s) referring to the buffer leaked", leaked_ctrl);
         }
     }
     if excl > 1 {
-        panic!("C05: {} parties obtained the storage without copying", excl);
+        panic!("C05,C04,C08: {} parties obtained the storage without copying", excl);
     }
 }
 
@@ -907,9 +910,19 @@ fn verif_loom_driver() {
         }
         if let Err(e) = r {
             let msg = e.downcast_ref::<String>().cloned().or_else(|| e.downcast_ref::<&str>().map(|s| s.to_string())).unwrap_or_else(|| "panic".into());
-            // ghost-cell / atomic causality violations are ordering defects (C06); everything else
-            // (wrong bytes, wrong address, double free, leak, use of a freed control block) is C05
-            let prop = if msg.contains("Causality violation") || msg.starts_with("C06") { "C06" } else { "C05" };
+            // the message starts with the list of properties it violates; ghost-cell / atomic causality
+            // violations are ordering defects (C06, and C05's "every outcome the memory model allows");
+            // anything unrecognised (e.g. loom tripping over a poisoned, i.e. freed, control block) is a
+            // lifetime defect
+            let head: String = msg.chars().take_while(|c| *c != ':').collect();
+            let prop: String = if head.starts_with('C') && head.len() <= 24 && head.split(',').all(|x| x.len() >= 3 && x.starts_with('C')) {
+                head
+            } else if msg.contains("Causality violation") {
+                "C06,C05".to_string()
+            } else {
+                "C05,C02,C03".to_string()
+            };
+            let prop = prop.as_str();
             println!("VIOLATION-DETAIL program={} property={} {}", idx, prop, msg.replace('\n', " "));
             violations.push((idx, prop.to_string(), msg.replace('\n', " ").replace('"', "'")));
         }
